@@ -19,7 +19,9 @@ import (
 	"net/url"
 	"os"
 	"runtime"
+	"sort"
 	"strconv"
+	"strings"
 	"sync"
 	"sync/atomic"
 	"syscall"
@@ -140,6 +142,64 @@ func blackhole() (string, func()) {
 		}
 		syscall.Close(fd)
 	}
+}
+
+// libGoroutines summarises the goroutines that are inside the library (top library frame and count)
+func libGoroutines() string {
+	buf := make([]byte, 1<<20)
+	buf = buf[:runtime.Stack(buf, true)]
+	counts := map[string]int{}
+	for _, g := range strings.Split(string(buf), "\n\n") {
+		for _, line := range strings.Split(g, "\n") {
+			if strings.HasPrefix(line, "github.com/lesismal/nbio") {
+				if k := strings.Index(line, "("); k > 0 {
+					line = line[:strings.LastIndex(line, "(")]
+				}
+				counts[strings.TrimPrefix(line, "github.com/lesismal/nbio")]++
+				break
+			}
+		}
+	}
+	var out []string
+	for k, v := range counts {
+		out = append(out, fmt.Sprintf("%s x%d", k, v))
+	}
+	sort.Strings(out)
+	if len(out) == 0 {
+		return "none"
+	}
+	return strings.Join(out, ", ")
+}
+
+// serverSide looks up, in /proc/net/tcp, the socket at the other end of the loopback connection c
+func serverSide(c net.Conn) string {
+	la, ok1 := c.LocalAddr().(*net.TCPAddr)
+	ra, ok2 := c.RemoteAddr().(*net.TCPAddr)
+	if !ok1 || !ok2 {
+		return "?"
+	}
+	b, err := os.ReadFile("/proc/net/tcp")
+	if err != nil {
+		return "?"
+	}
+	want := fmt.Sprintf("0100007F:%04X 0100007F:%04X", ra.Port, la.Port)
+	for _, line := range strings.Split(string(b), "\n") {
+		if strings.Contains(line, want) {
+			f := strings.Fields(line)
+			if len(f) > 9 {
+				owner := "no descriptor refers to it"
+				if ents, err := os.ReadDir("/proc/self/fd"); err == nil {
+					for _, e := range ents {
+						if l, err := os.Readlink("/proc/self/fd/" + e.Name()); err == nil && l == "socket:["+f[9]+"]" {
+							owner = "descriptor " + e.Name() + " of this process"
+						}
+					}
+				}
+				return fmt.Sprintf("state %s inode %s (%s)", f[3], f[9], owner)
+			}
+		}
+	}
+	return "no such socket"
 }
 
 func freePort() string {
@@ -449,6 +509,35 @@ func (l *faultListener) Accept() (net.Conn, error) {
 	return l.Listener.Accept()
 }
 
+// diagnostic (STOP_TRACE=1): logs what the standard library's Accept hands to the engine
+type traceListener struct{ net.Listener }
+
+func (l *traceListener) Accept() (net.Conn, error) {
+	c, err := l.Listener.Accept()
+	if err == nil {
+		pcs := make([]uintptr, 8)
+		n := runtime.Callers(2, pcs)
+		var who []string
+		fr := runtime.CallersFrames(pcs[:n])
+		for {
+			f, more := fr.Next()
+			who = append(who, f.Function)
+			if !more {
+				break
+			}
+		}
+		fmt.Fprintf(os.Stderr, "TRACE stdlib-accept %v by %p %v\n", c.RemoteAddr(), l, who)
+	} else {
+		fmt.Fprintf(os.Stderr, "TRACE stdlib-accept-error %v\n", err)
+	}
+	return c, err
+}
+
+func (l *traceListener) Close() error {
+	fmt.Fprintf(os.Stderr, "TRACE listener-close\n")
+	return l.Listener.Close()
+}
+
 func httpCase(rep *hx.Report, seed int64, fo force) {
 	r := rand.New(rand.NewSource(seed))
 	g0, f0 := settle(0, 0, 0)
@@ -479,6 +568,15 @@ func httpCase(rep *hx.Report, seed int64, fo force) {
 			return &faultListener{Listener: ln, at: at}, nil
 		}
 		h.Steps = append(h.Steps, fmt.Sprintf("accept-error-at-call-%d", at))
+	}
+	if os.Getenv("STOP_TRACE") != "" && conf.Listen == nil {
+		conf.Listen = func(network, a string) (net.Listener, error) {
+			ln, err := net.Listen(network, a)
+			if err != nil {
+				return nil, err
+			}
+			return &traceListener{ln}, nil
+		}
 	}
 	var e *nbhttp.Engine
 	mkEngine := func() { e = nbhttp.NewEngine(conf) }
@@ -599,6 +697,32 @@ func httpCase(rep *hx.Report, seed int64, fo force) {
 		h.Steps = append(h.Steps, fmt.Sprintf("client-dial-completes-%v-after-stop-begins", delay))
 		hx.Current("C18", "the process died while this nbhttp history (with a late client dial) was running", h)
 	}
+	// peers that connect WHILE Stop/Shutdown is closing the listeners (drawn from a generator of its own: the histories of
+	// the corpus seeds stay what they were): a connection the kernel has established is either served and closed or closed
+	// at once - never accepted and then forgotten
+	r2 := rand.New(rand.NewSource(seed ^ 0x5eed0c18))
+	var storm []net.Conn
+	var stormWG sync.WaitGroup
+	if r2.Intn(3) == 0 {
+		nstorm := 8 + r2.Intn(40)
+		lead := time.Duration(r2.Intn(3000)) * time.Microsecond
+		stormWG.Add(1)
+		go func() {
+			defer stormWG.Done()
+			for k := 0; k < nstorm; k++ {
+				c, err := net.DialTimeout("tcp", addr, 300*time.Millisecond)
+				if err != nil {
+					return // the listener is gone
+				}
+				storm = append(storm, c)
+				if k%3 == 0 {
+					c.Write([]byte("GET /s HTTP/1.1\r\nHost: x\r\n\r\n"))
+				}
+			}
+		}()
+		time.Sleep(lead)
+		h.Steps = append(h.Steps, fmt.Sprintf("%d-peers-connecting-while-stop-begins(lead %v)", nstorm, lead))
+	}
 	done := make(chan struct{})
 	t0 := time.Now()
 	go func() {
@@ -619,6 +743,8 @@ func httpCase(rep *hx.Report, seed int64, fo force) {
 	}
 	h.StopMs = time.Since(t0).Milliseconds()
 	h.Opened, h.Closed = -1, -1
+	stormWG.Wait()
+	clients = append(clients, storm...)
 	closeFillers()
 	lateCleanup()
 	finish(rep, h, g0, f0, func() {
@@ -662,8 +788,21 @@ func finish(rep *hx.Report, h *history, g0, f0 int, cleanup func(), peers []net.
 			_, err = c.Read(buf)
 		}
 		if ne, ok := err.(net.Error); ok && ne.Timeout() {
+			side := serverSide(c)
+			if side == "no such socket" {
+				// the kernel told the peer "established" but never completed a server-side socket for it (the listener was
+				// closed while the handshake was still in its queues): the library never saw this connection
+				rep.Stat("peer-connection-never-reached-accept(kernel)")
+				continue
+			}
+			gor := libGoroutines()
+			runtime.GC()
+			time.Sleep(50 * time.Millisecond)
+			runtime.GC()
+			time.Sleep(50 * time.Millisecond)
+			after := serverSide(c)
 			rep.Add(hx.Finding{Kind: "oracle", Property: "C18", Signature: "connection-left-open-" + sigp,
-				What: fmt.Sprintf("peer connection %d is still open 3s after %s returned", i, h.StopKind), Replay: h})
+				What: fmt.Sprintf("peer connection %d (%v) is still open 3s after %s returned; library goroutines still alive: %s; server side of it: %s; after two forced garbage collections: %s", i, c.LocalAddr(), h.StopKind, gor, side, after), Replay: h})
 			break
 		}
 	}
